@@ -36,12 +36,20 @@ _JOBS = "list[list[PVEvent]]"
 RECORDS = {
     **base.RECORDS,
     "PVEvent": {"fields": {}},
-    "Made": {"struct": True, "fields": {"path": "str", "name": "str", "jobs": _JOBS, "model": "dict[str, Event]", "learned": "dict[str, Event]"}},
-    "Saved": {"struct": True, "fields": {"name": "str", "model": "dict[str, Event]", "path": "str"}},
+    # a model in a log entry is named by `mid(model)`, an uninterpreted function of the dictionary: entries are then compared by plain term
+    # equality (a clause that holds for every interpretation of `mid` holds for an injective one, i.e. for the dictionaries themselves);
+    # comparing the dictionaries directly needs extensionality reasoning under quantifiers, which made these proofs unstable
+    "ModelId": {"fields": {}},
+    "Made": {"struct": True, "fields": {"path": "str", "name": "str", "jobs": _JOBS, "model": "ModelId", "learned": "ModelId"}},
+    "Saved": {"struct": True, "fields": {"name": "str", "model": "ModelId", "path": "str"}},
     "Out": {"fields": {"made": "list[Made]", "saves": "list[Saved]"}, "mutable": ["made", "saves"]},
 }
 
 SPECS = '''
+@opaque
+def mid(m: dict[str, Event]) -> ModelId:
+    return mid(m)
+
 def fname(job_name: str) -> str:
     return job_name.replace(' ', '_')
 
@@ -61,7 +69,7 @@ def PLUMBING(n):
         # diagram i: jobs i, name i, the .puml path of name i, the model loaded under name i (or an empty one)
         "made": f"all(out.made[{_M0} + i].jobs == pv_streams[i][1] and out.made[{_M0} + i].name == pv_streams[i][0] "
                 f"and out.made[{_M0} + i].path == os.path.join(output_file_directory, f'{{fname(pv_streams[i][0])}}.puml') "
-                f"and out.made[{_M0} + i].model == start_model(events_to_jobs_map, pv_streams[i][0]) for i in range({n}))",
+                f"and out.made[{_M0} + i].model == mid(start_model(events_to_jobs_map, pv_streams[i][0])) for i in range({n}))",
         "saves_count": f"len(out.saves) == {_S0} + ({n} if save_models else 0)",
         "saves_before": f"all(out.saves[p] == old(out.saves)[p] for p in range({_S0}))",
         # model file i: the model that learning i returned, under name i and the _model.json path of name i
@@ -75,11 +83,11 @@ CONTRACTS = {
         "trusted": True, "mutable_params": ["events"], "modifies": base.ALL + ["Out.made"],
         "params": {"pv_stream": _JOBS, "events": "Optional[dict[str, Event]]"},
         "ensures": {"logged": "events is not None and out.made == old(out.made) + [Made(path=puml_file_path, name=puml_name, jobs=pv_stream, "
-                              "model=(old(events) if old(events) is not None else {}), learned=events)]"},
+                              "model=mid(old(events) if old(events) is not None else {}), learned=mid(events))]"},
     },
     "save_events_to_file": {
         "trusted": True, "modifies": ["Out.saves"],
-        "ensures": {"logged": "out.saves == old(out.saves) + [Saved(name=job_name, model=events, path=file_path)]"},
+        "ensures": {"logged": "out.saves == old(out.saves) + [Saved(name=job_name, model=mid(events), path=file_path)]"},
     },
     "pv_streams_to_puml_files": {
         "params": {"pv_streams": "list[tuple[str, list[list[PVEvent]]]]"},
@@ -91,7 +99,13 @@ CONTRACTS = {
                    "and events_to_jobs_map[nm] == old(mp(events_to_jobs_map))[nm]) for nm in events_to_jobs_map) "
                    "and all(nm in events_to_jobs_map for nm in old(mp(events_to_jobs_map)))",
             **PLUMBING("k"),
-        }}},
+        }, "hints_end": [
+            # the entries this iteration appended (k is already the next index here)
+            f"len(out.made) == {_M0} + k and len(out.saves) == {_S0} + (k if save_models else 0)",
+            f"out.made[{_M0} + k - 1].name == pv_streams[k - 1][0]",
+            f"implies(save_models, out.saves[{_S0} + k - 1].name == pv_streams[k - 1][0] and out.saves[{_S0} + k - 1].model == out.made[{_M0} + k - 1].learned "
+            f"and out.saves[{_S0} + k - 1].path == os.path.join(output_file_directory, f'{{fname(pv_streams[k - 1][0])}}_model.json'))",
+        ]}},
         "locals": {"events": "dict[str, Event]"},
     },
 }
@@ -134,6 +148,7 @@ def native_env(nat):
     import os as _os
     env = base.native_env(nat)
     env["os"] = _os
+    env["mid"] = lambda m: m
     return env
 
 
